@@ -55,6 +55,17 @@ func (p hpkt) stat() *types.Stat {
 		st.Linkname = p.Link
 	case "fifo":
 		st.Mode = uint32(os.ModeNamedPipe | 0644)
+		st.Linkname = p.Link
+	case "socket":
+		st.Mode = uint32(os.ModeSocket | 0644)
+		st.Linkname = p.Link
+	case "irregular":
+		st.Mode = uint32(os.ModeIrregular | 0644)
+		st.Linkname = p.Link
+	case "chr":
+		st.Mode = uint32(os.ModeDevice | os.ModeCharDevice | 0644)
+		st.Linkname = p.Link
+		st.Devmajor, st.Devminor = 1, 3
 	default:
 		st.Mode = 0644
 		st.Linkname = p.Link
@@ -350,6 +361,10 @@ func hostileAlphabet() []hpkt {
 		{T: "STAT", Path: "s", Kind: "symlink", Link: "/outside/od"},
 		{T: "STAT", Path: "s/x", Kind: "file", Size: 4}, // child of a symlink sent earlier
 		{T: "STAT", Path: "a\\b", Kind: "file", Size: 1},
+		{T: "STAT", Path: "c", Kind: "socket", Link: "../../outside/o"}, // odd type bits carrying an escaping link name
+		{T: "STAT", Path: "c", Kind: "irregular", Link: "../../outside/o"},
+		{T: "STAT", Path: "c", Kind: "fifo", Link: "../../outside/o"},
+		{T: "STAT", Path: "c", Kind: "chr", Link: "../sibling"},
 		{T: "DATA", ID: 0, Size: 3}, // content for an id that was not requested
 		{T: "FIN"},
 	}
